@@ -49,6 +49,26 @@ def make_cases(rng, tier, budget):
                     hist = pre + [["build", {}, root], ["build", {}, root], ["clean", None]]
                     out.append({"cache": ["cache"], "name": "n", "funcs": funcs, "history": hist,
                                 "tag": {"depth": depth, "prior": prior, "mode": mode}})
+    # creating the parent directories fails part-way below stale ancestors (left by the previous build,
+    # or by a failed call earlier in the same build)
+    for depth_stale in (1, 2):
+        for where in ("previous_build", "same_build"):
+            stale = ["S%d" % i for i in range(depth_stale)]
+            target = stale + ["fresh", "L" * 300, "o"]
+            funcs = {"f": {"*": [["write", ["lit", "x"]], ["ret", ["lit", 1]]]},
+                     "old": {"*": [["write", ["lit", "old"]], ["ret", ["lit", 0]]]},
+                     "boom": {"*": [["raise", 3]]}}
+            root = [["build_file", "x", target, "METADATA", "f", [], {}],
+                    ["ask", "e1", "exists", stale + ["fresh"]], ["ask", "e2", "is_dir", stale],
+                    ["ret", ["digest", ["x", "e1", "e2"]]]]
+            if where == "previous_build":
+                hist = [["build", {}, [["build_file", "o", stale + ["inner"], "METADATA", "old", [], {}], ["ret", ["lit", 0]]]],
+                        ["build", {}, root], ["build", {}, root], ["clean", None]]
+            else:
+                root = [["build_file", "b", stale + ["inner"], "METADATA", "boom", [], {}]] + root
+                hist = [["build", {}, root], ["build", {}, root], ["clean", None]]
+            out.append({"cache": ["cache"], "name": "n", "funcs": funcs, "history": hist,
+                        "tag": {"depth": depth_stale + 3, "prior": "stale_ancestor_" + where, "mode": "mkdir_fails_part_way"}})
     g = gen.Gen(rng, dict(fail=0.4, malformed=0.1, long=0.05))
     for _ in range((20 if tier == "quick" else 300) * budget):
         out.append(g.case())
